@@ -67,13 +67,17 @@ CodecVals == {"0", "1", "255", "256", "r-1", "r", "r+1", "2r", "p-1", "p", "2^25
               "2^63", "2^64-1", "2^64", "2^127", "2^128-1", "2^191", "2^192-1", "h-1", "h", "h+1", "3r", "4r+1", "5r-1", "8r", "8r-1", "r~64", "r~128", "r~192", "r+2^64", "r-2^64", "r+2^128", "r-2^128", "r+2^192", "r-2^192"} \cup RndVals(IF Tier = "quick" THEN 3 ELSE 150)
 (* every pattern of (limb of r) - 1 / equal / + 1 over the four 64-bit limbs: a complete cover of limb-wise comparisons against r *)
 LimbPats == {"L:" \o a \o b \o c \o d : a \in {"m", "e", "p"}, b \in {"m", "e", "p"}, c \in {"m", "e", "p"}, d \in {"m", "e", "p"}}
+(* stored-word (Montgomery) classes: the 15 patterns of zero / non-zero stored limbs, and named small stored words *)
+MontVals == ({"montz:" \o a \o b \o c \o d : a \in {"0", "x"}, b \in {"0", "x"}, c \in {"0", "x"}, d \in {"0", "x"}} \ {"montz:0000"})
+            \cup {"mont:1", "mont:5", "mont:255", "mont:2^63", "mont:2^64-1", "mont:2^64", "mont:2^128", "asmont:1", "asmont:2", "asmont:-1", "asmont:R"}
 CodecCases ==
   {[Blank EXCEPT !.fn = f, !.len = n, !.val = v] : f \in {"SetBytes", "SetBytesLE"}, n \in CodecLens, v \in CodecVals}
   \cup {[Blank EXCEPT !.fn = f, !.len = n, !.val = v] : f \in {"SetBytesLECanonical"}, n \in CodecLens, v \in CodecVals}
   \cup {[Blank EXCEPT !.fn = "ReadScalar", !.len = n, !.val = v] : n \in {0, 1, 31, 32, 33, 64}, v \in CodecVals}
   \cup {[Blank EXCEPT !.fn = f, !.len = 32, !.val = v] : f \in {"SetBytes", "SetBytesLE", "SetBytesLECanonical", "ReadScalar"}, v \in LimbPats}
   \cup {[Blank EXCEPT !.fn = f, !.len = n, !.val = v] : f \in {"SetBytes", "SetBytesLE", "SetBytesLECanonical"}, n \in {33, 40, 63, 64}, v \in {"hi_r", "hi_3r", "hi_8r"}}
-  \cup {[Blank EXCEPT !.fn = f, !.len = 32, !.val = v] : f \in {"Bytes", "BytesLE", "fpBytes", "fpBytesLE"}, v \in CodecVals}
+  \cup {[Blank EXCEPT !.fn = f, !.len = 32, !.val = v] : f \in {"Bytes", "BytesLE", "fpBytes", "fpBytesLE"}, v \in CodecVals \cup MontVals}
+  \cup {[Blank EXCEPT !.fn = f, !.len = n, !.val = v] : f \in {"SetBytes", "SetBytesLE", "SetBytesLECanonical", "ReadScalar"}, n \in {32, 64}, v \in MontVals}
 
 Which == IF "VERIF_PART" \in DOMAIN IOEnv THEN IOEnv.VERIF_PART ELSE "all"
 BandCases == {[Blank EXCEPT !.op = "mul", !.xall = TRUE, !.yall = TRUE, !.band = Band]}
